@@ -187,24 +187,32 @@ def interp_expected(m, x):
             return [(a + (b - a) * t, Fraction(1, 10 ** 13) * max(1, abs(a), abs(b))) for a, b in zip(l, r)]
     return None
 
+def quad_tol(n_cells, sum_abs):
+    """rounding allowance of the f64 evaluation of a sum of n cell contributions: each contribution is formed with at most
+    12 roundings (differences, products, corner sum, powf) and added with one more; first-order bound, doubled.
+    On the generated dyadic data the f64 result is in fact exact; a wrong weight / index / corner is an O(1) relative error."""
+    return 2 * (n_cells + 12) * ULP * sum_abs
+
 def trap1_expected(m, var):
     xs = [Fraction(t) for t in m.nodes]
-    s = Fraction(0); scale = Fraction(1)
+    s = Fraction(0); tot = Fraction(0); n = 0
     for k in range(len(xs) - 1):
         c = Fraction(1, 2) * (xs[k + 1] - xs[k]) * (Fraction(m.vars[k][var]) + Fraction(m.vars[k + 1][var]))
-        s += c; scale = max(scale, abs(s), abs(c))
-    return s, Fraction(1, 10 ** 13) * scale
+        s += c; tot += abs(c); n += 1
+    return s, quad_tol(n, tot)
 
 def trap2_expected(m, var, square=False):
     xs = [Fraction(t) for t in m.xs]; ys = [Fraction(t) for t in m.ys]
     g = (lambda v: Fraction(v) ** 2) if square else (lambda v: Fraction(v))
-    s = Fraction(0); scale = Fraction(1)
+    s = Fraction(0); tot = Fraction(0); n = 0
     for i in range(m.nx - 1):
         for j in range(m.ny - 1):
             c = Fraction(1, 4) * (xs[i + 1] - xs[i]) * (ys[j + 1] - ys[j]) * (
+                abs(g(m.vars[(i, j)][var])) + abs(g(m.vars[(i + 1, j)][var])) + abs(g(m.vars[(i, j + 1)][var])) + abs(g(m.vars[(i + 1, j + 1)][var])))
+            tot += abs(c); n += 1
+            s += Fraction(1, 4) * (xs[i + 1] - xs[i]) * (ys[j + 1] - ys[j]) * (
                 g(m.vars[(i, j)][var]) + g(m.vars[(i + 1, j)][var]) + g(m.vars[(i, j + 1)][var]) + g(m.vars[(i + 1, j + 1)][var]))
-            s += c; scale = max(scale, abs(s), abs(c))
-    return s, Fraction(1, 10 ** 13) * scale
+    return s, quad_tol(n, tot)
 
 def ref_step1(m, op):
     """returns (expected entries of the result, replacement entries of the state dump or None)"""
